@@ -2,6 +2,15 @@
 
   (run <expr>)     expand from the empty graph, evaluate the three tails and the trained states
   (denote <expr>)  ⟦expr⟧ on the inputs (input 0) (input 1) (input 2)
+  (bridge (a t l) <expr>)   `flow.Composition(source, expr)` with the source actors a (apply reader), t (train reader),
+                   l (label extractor): the train and apply segments in the S-expression format of the C01 driver
+                   (`toSegment`), `Composition.persistent`, C01's decidable `wf` / `connected` / `assetsOK` on them, the
+                   C01 compiler model + reference interpreter on both (train: fresh store with the persistent list; apply:
+                   the generation the train run committed) and `⟦expr⟧` on the source's outputs:
+                   (checks: wf/connected/assetsOK(fresh store)/assetsOK(none) of the train segment, wf/connected/assetsOK of
+                   the apply segment, `bridgeOK` = the hypothesis of theorem C03_end_to_end_partial)
+                   (ok (train seg) (apply seg) (persistent (gid*)) (checks b*) (agree b))
+                   agree: train tail, trained states (training order) and apply tail of the compiled tables = conv of `⟦expr⟧`
 
   actor ::= (tag stateful)        slot ::= none | actor
   expr  ::= (wrap slot slot slot) | (mapreduce (actor ...) tag) | (debug actor actor)
@@ -10,6 +19,9 @@
 import ForML.Model.Sexp
 import ForML.Model.Compose
 import ForML.Model.Denote
+import ForML.Model.ComposeSegment
+import ForML.Model.SymbolsSexp
+import ForML.Model.Compile
 open ForML ForML.Compose
 
 def bool? : Sexp → Option Bool
@@ -79,6 +91,60 @@ def groupSig (g : Graph) : Sexp :=
       | [] => 0
     .list [Sexp.ofNat tag, Sexp.ofNat ms.length, Sexp.ofNat (g.trains.filter (fun t => t.gid == gid)).length]))
 
+/-! ### the bridge to the compiler model (C01) -/
+
+def segWorkerSexp (w : Flow.Worker) : Sexp :=
+  .list [Sexp.ofNat w.uid, Sexp.ofNat w.gid, Sexp.ofNat w.actor, Sexp.ofBool w.stateful, Sexp.ofNat w.szin, Sexp.ofNat w.szout]
+
+def segEdgeSexp (e : Flow.Edge) : Sexp :=
+  let (k, i) := match e.subPort with
+    | .apply i => ("a", i)
+    | .train => ("t", 0)
+    | .label => ("l", 1)
+  .list [Sexp.ofNat e.pub, Sexp.ofNat e.pubPort, Sexp.ofNat e.sub, .atom k, Sexp.ofNat i]
+
+def segSexp (s : Flow.Segment) : Sexp :=
+  .list [.list (s.workers.map segWorkerSexp), .list (s.edges.map segEdgeSexp), Sexp.ofNat s.head, Sexp.ofNat s.tail,
+    Sexp.ofNats s.trainedElsewhere]
+
+def undump : Flow.Val → Flow.Val
+  | .dumped v => v
+  | v => v
+
+/-- value at the functor of worker `n` after compiling `s` (in the order of `Traversal.each`) and running the table -/
+def compiledValue (s : Flow.Segment) (A : Option Flow.Assets) (n : Nat) : Option Flow.Val × Option Flow.Val :=
+  match Flow.compile s A s.visitOrder with
+  | .ok t =>
+    let m := Flow.run A t
+    (m.get (.uid n), m.get .committer)
+  | .error _ => (none, none)
+
+def bridgeOut (src : Source) (e : Expr) : Sexp :=
+  match segments src e with
+  | .error err => .list [.atom "error", errSexp err]
+  | .ok sg =>
+    let tr := sg.train
+    let ap := sg.apply
+    let pers := persistentOf ap
+    let fresh : Option Flow.Assets := some ⟨pers, []⟩
+    let (trainVal, committed) := compiledValue tr fresh tr.tail
+    let prev : List Flow.Val := match committed with
+      | some (.committed vs) => vs.map undump
+      | _ => []
+    let stored : Option Flow.Assets := some ⟨pers, prev⟩
+    let (applyVal, _) := compiledValue ap stored ap.tail
+    let d := denoteOn src e
+    -- the states of the trained forks, in training order, by direct evaluation (what the compiled table yields: C01)
+    let trainStates : List Sexp := sg.graph.trains.map fun T => (tr.nodeVal fresh tr.evalFuel T.node).toSexp
+    let checks := [tr.wf (segRank tr), tr.connected, tr.assetsOK fresh, tr.assetsOK none, ap.wf (segRank ap), ap.connected,
+      ap.assetsOK stored, bridgeOKof sg]
+    let agree := trainVal.map Flow.Val.toSexp == some (conv d.train).toSexp &&
+      applyVal.map Flow.Val.toSexp == some (conv d.apply).toSexp &&
+      trainStates == d.states.map (fun s => (conv s.2).toSexp)
+    .list [.atom "ok", .list [.atom "train", segSexp tr], .list [.atom "apply", segSexp ap],
+      .list [.atom "persistent", Sexp.ofNats pers], .list (.atom "checks" :: checks.map Sexp.ofBool),
+      .list [.atom "agree", Sexp.ofBool agree]]
+
 def stepC03 : Sexp → Sexp
   | .list [.atom "run", x] =>
     match expr? x with
@@ -98,6 +164,10 @@ def stepC03 : Sexp → Sexp
       let d := denote e (.input 0) (.input 1) (.input 2)
       .list [.atom "ok", .list [.atom "train", valSexp d.train], .list [.atom "apply", valSexp d.apply],
         .list [.atom "label", valSexp d.label], .list [.atom "states", statesSexp d.states]]
+  | .list [.atom "bridge", .list [a, t, l], x] =>
+    match a.nat?, t.nat?, l.nat?, expr? x with
+    | some a, some t, some l, some e => bridgeOut ⟨a, t, l⟩ e
+    | _, _, _, _ => .atom "bad-op"
   | _ => .atom "bad-op"
 
 def main : IO Unit := driverLoop stepC03
